@@ -111,13 +111,17 @@ func sortedKeys[M ~map[string]V, V any](m M) []string {
 var errflowExceptions = map[string]string{
 	// deferred best-effort cleanup of a read-only plan after the result/err has already been decided;
 	// the plan's Close touches no persistent state (iterators of the same txn, which is discarded/committed by the caller)
-	"db.(*collection).updateWithFilter→internal/planner.(planNode).Close#1": "deferred Close of the selection plan: logged by design (source comment), result already decided; iterators die with the txn",
-	"db.(*collection).deleteWithFilter→internal/planner.(planNode).Close#1": "deferred Close of the selection plan: logged by design, result already decided",
-	"db.(*collection).get→internal/db/fetcher.(Fetcher).Close#1":            "Close on an error exit: the original error is returned (explicit `_ =`)",
-	"db.(*collection).get→internal/db/fetcher.(Fetcher).Close#2":            "Close on an error exit: the original error is returned (explicit `_ =`)",
-	"db.(*collection).get→internal/db/fetcher.(Fetcher).Close#3":            "Close on the not-found exit: the not-found result is returned (explicit `_ =`)",
-	"db.isUpdatingIndexedFields→client.(*Document).GetValue#1":              "GetValue error means 'field not set' (documented in the source comment); both errors are inspected by the switch",
-	"db.isUpdatingIndexedFields→client.(*Document).GetValue#2":              "GetValue error means 'field not set'; inspected by the switch",
+	"db.(*collection).updateWithFilter→internal/planner.(planNode).Close#1":            "deferred Close of the selection plan: logged by design (source comment), result already decided; iterators die with the txn",
+	"db.(*collection).deleteWithFilter→internal/planner.(planNode).Close#1":            "deferred Close of the selection plan: logged by design, result already decided",
+	"db.(*collection).get→internal/db/fetcher.(Fetcher).Close#1":                       "Close on an error exit: the original error is returned (explicit `_ =`)",
+	"db.(*collection).get→internal/db/fetcher.(Fetcher).Close#2":                       "Close on an error exit: the original error is returned (explicit `_ =`)",
+	"db.(*collection).get→internal/db/fetcher.(Fetcher).Close#3":                       "Close on the not-found exit: the not-found result is returned (explicit `_ =`)",
+	"db.isUpdatingIndexedFields→client.(*Document).GetValue#1":                         "GetValue error means 'field not set' (documented in the source comment); both errors are inspected by the switch",
+	"db.isUpdatingIndexedFields→client.(*Document).GetValue#2":                         "GetValue error means 'field not set'; inspected by the switch",
+	"planner.(*parallelNode).Prefixes→internal/planner.(*parallelNode).applyToPlans#1": "the callback passed here always returns nil (Prefixes has no error result); explicit `_ =`",
+	"planner.(*Planner).RunRequest→internal/planner.(planNode).Close#1":                "deferred Close of the executed plan after the result and error were decided; the assignment targets a non-result variable, so the close error is dropped — no state decision depends on it",
+	"planner.(*Planner).executeAndExplainRequest→internal/planner.(planNode).Start#1":  "explain-execute reports the failure inside the explain result by design (executionSuccess=false)",
+	"db.(*DB).handleSubscription→internal/db.(*DB).NewTxn#1":                           "subscription evaluation goroutine (read-only, after the triggering commit): a failed NewTxn is logged and the event skipped; delivery completeness is the undecided remainder of C20",
 }
 
 // ruleErrFlowCone applies the error-flow rule to every storage-derived error produced inside the
